@@ -18,7 +18,7 @@ Known finding KCIRC-F1 (known_findings/KCIRC.json): while it is open M is checke
 as it is), TLC is expected to refute EosSound for it (design level) and to prove it for Fix = TRUE (the repair); histories
 that need the deviation of Trace_CircularBuffer are reported as KNOWN-FINDING.
 """
-import json, os, random, time
+import json, os, random, subprocess, time
 from vlib import core
 from vlib import replay as rp
 
@@ -47,6 +47,54 @@ def configs(tier):
         return [dict(Cap=1, MaxVal=3, NW=2), dict(Cap=2, MaxVal=4, NW=2), dict(Cap=3, MaxVal=5, NW=2), dict(Cap=32, MaxVal=34, NW=1)]
     return [dict(Cap=1, MaxVal=4, NW=3), dict(Cap=2, MaxVal=5, NW=3), dict(Cap=3, MaxVal=6, NW=3), dict(Cap=32, MaxVal=35, NW=2),
             dict(Cap=33, MaxVal=35, NW=1)]
+
+
+# ----------------------------------------------------------------------------- running the harness
+
+HANG_SECS = 10
+HANGS = [0]          # calls that did not return, over the whole run: after three the remaining cases of a batch are not run
+
+
+def run_guarded(cases, wd, tag, args=(), strip=True):
+    """like replay.run_cases; a call of the code under test that does not return ends the harness process with status 3 after
+    it answered {"hang": true, "panic": ...} for that case: the remaining cases go to a new process."""
+    core.build_harness("h_core", "circbuf")
+    if strip:
+        send = [{"id": c["id"], "cfg": c.get("cfg", {}), "acts": [rp.inputs(a, INPUT_KEYS) for a in c["acts"]]} for c in cases]
+    else:
+        send = cases
+    env = core.coverage_env(dict(os.environ), "circbuf")
+    env.setdefault("RUST_BACKTRACE", "0")
+    env["CIRCBUF_HANG_SECS"] = str(HANG_SECS)
+    results = []
+    start = 0
+    part = 0
+    while start < len(send):
+        inp = os.path.join(wd, "%s.%d.in.ndjson" % (tag, part))
+        outp = os.path.join(wd, "%s.%d.out.ndjson" % (tag, part))
+        part += 1
+        core.write_ndjson(inp, send[start:])
+        try:
+            with open(inp) as fin, open(outp, "w") as fout:
+                p = subprocess.run([core.harness_bin("circbuf")] + list(args), stdin=fin, stdout=fout, stderr=subprocess.PIPE, text=True,
+                                   timeout=3600, env=env)
+        except subprocess.TimeoutExpired:
+            raise core.ToolError("harness circbuf %s timed out" % (args,))
+        res = core.read_ndjson(outp)
+        results += res
+        if p.returncode == 0:
+            break
+        if p.returncode == 3 and res and res[-1].get("hang"):
+            HANGS[0] += 1
+            start += len(res)
+            if HANGS[0] >= 3:
+                results += [{"id": c["id"], "skipped": True} for c in send[start:]]
+                break
+            continue
+        raise core.ToolError("harness circbuf %s exited %s:\n%s" % (args, p.returncode, p.stderr[-4000:]))
+    if len(results) != len(cases):
+        raise core.ToolError("harness circbuf answered %d of %d cases" % (len(results), len(cases)))
+    return results
 
 
 # ----------------------------------------------------------------------------- histories for P
@@ -221,10 +269,12 @@ def stress_cases(tier, rng):
 
 def run_stress(tier, out, wd, rng, judge):
     cases = stress_cases(tier, rng)
-    results = rp.run_cases("h_core", "circbuf", cases, wd, tag="stress", strip=False, args=("stress",))
+    results = run_guarded(cases, wd, "stress", args=("stress",), strip=False)
     distinct = {}
     panics = 0
     for c, r in zip(cases, results):
+        if r.get("skipped"):
+            continue
         if r.get("panic") is not None and "events" not in r:
             panics += 1
             out.violation("circular buffer, two threads: panic in the code under test: %s (cfg %s)" % (r["panic"], json.dumps(c["cfg"])),
@@ -282,6 +332,9 @@ def conformance(out, cases, results, judge, f, what, budget):
     div = []
     is_open = kf_open()
     for c, r in zip(cases, results):
+        if r.get("skipped"):
+            st["unjudged"] += 1
+            continue
         st["steps"] += len(c["acts"])
         if r.get("panic") is not None:
             div.append((c, r, 0))
@@ -357,7 +410,7 @@ def run_k(tier, out, wd, prop="C08"):
         for i, p in enumerate(paths):
             cfg = {"cap": k["Cap"], "nw": k["NW"], "watch": (k["Cap"] == 1 and i % 2 == 0)}
             cases.append({"id": "%d.%d" % (ci, i), "cfg": cfg, "acts": p})
-        results = rp.run_cases("h_core", "circbuf", cases, wd, tag="cb%d" % ci, input_keys=INPUT_KEYS)
+        results = run_guarded(cases, wd, "cb%d" % ci)
         st = conformance(out, cases, results, judge, f, "CircularBuffer%s" % json.dumps(k), budget)
         steps += st["steps"]
         drift += st["drift"]
@@ -419,7 +472,7 @@ def replay(path, out):
         print("P verdict on the recorded history:", json.dumps(v))
         core.build_harness("h_core", "circbuf")
         cases = [{"id": i, "cfg": dict(obj["cfg"], seed=obj["cfg"].get("seed", 1) + i)} for i in range(2000)]
-        results = rp.run_cases("h_core", "circbuf", cases, wd, tag="stress", strip=False, args=("stress",))
+        results = run_guarded(cases, wd, "stress", args=("stress",), strip=False)
         hs = {}
         for c, r in zip(cases, results):
             if "events" in r:
@@ -433,7 +486,7 @@ def replay(path, out):
         return 0
     case = obj["case"]
     core.build_harness("h_core", "circbuf")
-    res = rp.run_cases("h_core", "circbuf", [case], wd, tag="replay", input_keys=INPUT_KEYS)[0]
+    res = run_guarded([case], wd, "replay")[0]
     d = rp.first_diff(case["acts"], res.get("obs", []), INPUT_KEYS, IGNORE_OBS)
     print("first divergence from M at step:", d)
     if d is not None:
